@@ -1272,3 +1272,164 @@ def c01_windows(ctx, verdict, intensive=False):
 
 
 WINDOWS['C01'] = c01_windows
+
+
+# ==========================================================================================
+# C12 / C01: session pair over BOUNDED connections (a Write returns when the peer's receive loop has taken it)
+def bd_gen(ctx, intensive=False):
+    cases = []
+    arrive = {'closing-same': lambda me, sid, other: 'X:%s:%d' % (me, sid), 'closing-other': lambda me, sid, other: 'X:%s:%d' % (me, other),
+              'data-same': lambda me, sid, other: 'W:%s:%d:7' % (me, sid), 'data-other': lambda me, sid, other: 'W:%s:%d:7' % (me, other),
+              'session-closing': lambda me, sid, other: 'Z:%s' % me}
+    mids = {'Write': lambda me, sid: 'W:%s:%d:100' % (me, sid), 'ReadFrom': lambda me, sid: 'F:%s:%d:100' % (me, sid), 'Close': lambda me, sid: 'X:%s:%d' % (me, sid)}
+    pingpong = ['W:A:3:5', 'R:B:3', 'W:B:3:5', 'R:A:3']
+    k = 0
+    for mid in mids:
+        for arr in arrive:
+            for nconn in (1, 2):
+                # (a) the frames are taken first and held by the receive loops, then the senders start, then everything is released
+                for two in (0, 1):
+                    for rel in (0, 1):
+                        toks = ['H:A:1', 'H:B:1']
+                        toks.append(arrive[arr]('B', 1, 2))            # arrives at A, concerning A's stream 1 (or 2)
+                        if two:
+                            toks.append(arrive[arr]('A', 2, 1))        # arrives at B, concerning B's stream 2 (or 1)
+                        toks += ['N:A:1', 'N:B:1']
+                        toks.append(mids[mid]('A', 1))
+                        if two:
+                            toks.append(mids[mid]('B', 2))
+                        toks += ['N:A:0', 'N:B:0', 'H:A:0', 'H:B:0'] if rel else ['H:A:0', 'H:B:0', 'N:A:0', 'N:B:0']
+                        z = arr == 'session-closing'
+                        if not z:
+                            toks += pingpong
+                        cid = 'bd%d' % k; k += 1
+                        cases.append((cid, '%s B %d %d %s' % (cid, k % 4, nconn, ' '.join(toks)),
+                                      dict(mid=mid, arriving=arr, two_sided=two, nconn=nconn, order='frames held by the receive loops first, then the senders', session_close=z)))
+                # (b) the sender is mid-send first (its peer is slow to read), then the frame arrives and is processed at once
+                toks = ['N:B:1', mids[mid]('A', 1), arrive[arr]('B', 1, 2), 'N:B:0']
+                z = arr == 'session-closing'
+                if not z:
+                    toks += pingpong
+                cid = 'bd%d' % k; k += 1
+                cases.append((cid, '%s B %d %d %s' % (cid, k % 4, nconn, ' '.join(toks)),
+                              dict(mid=mid, arriving=arr, two_sided=0, nconn=nconn, order='sender mid-send first (peer slow to read), then the frame arrives', session_close=z)))
+    return cases
+
+
+def bd_parse(io):
+    if '|' not in io:
+        return None
+    steps, fin = io.split('|', 1)
+    d = dict(t.split('=', 1) for t in fin.split() if '=' in t)
+    d['steps'] = steps.split()          # (the case id has already been stripped by read_lines_by_id)
+    return d
+
+
+def bd_oracle(line, meta, io):
+    d = bd_parse(io)
+    if d is None:
+        return 'scenario did not complete: ' + io[:200]
+    toks = line.split()[4:]
+    blocked = [o for o in d['ops'].split(',') if ':b:' in o or o.endswith(':b')]
+    if blocked or d['stuck'] != '-':
+        names = []
+        opt = [t for t in toks if t[0] in 'WFXZR']
+        for o in blocked:
+            i = int(o.split(':')[0])
+            names.append('%s blocked (%s)' % (opt[i] if i < len(opt) else '?', o.split(':b:', 1)[1] if ':b:' in o else '?'))
+        return ('after everything parked was released, with no connection failed%s: %s; receive loops back in Read: %s%s' % (
+            '' if meta['session_close'] else ' and no session closed', '; '.join(names) or 'every call returned', d['loops'],
+            '' if d['stuck'] == '-' else ', receive loop(s) stuck at ' + d['stuck']))
+    want_closed = '11' if meta['session_close'] else '00'
+    if d['closed'] != want_closed:
+        return 'sessions closed (A,B) = %s, expected %s' % (d['closed'], want_closed)
+    if not meta['session_close']:
+        # ping-pong on the third stream
+        res = dict(zip(toks, d['steps']))
+        idx = {t: i for i, t in enumerate(toks)}
+        for wtok, rtok in (('W:A:3:5', 'R:B:3'), ('W:B:3:5', 'R:A:3')):
+            want = 'd:' + (bytes([ord('a') + idx[wtok] % 26]) * 5).hex() + ':ok'
+            if res.get(rtok) != want:
+                return 'ping-pong on the third stream: %s gave %s, expected %s' % (rtok, res.get(rtok), want)
+    return None
+
+
+def bd_describe(line, meta, io):
+    d = bd_parse(io) or dict(steps=[])
+    names = {'H': 'receive loops of side %s: take one message and hold it = %s', 'N': 'receive loops of side %s: take nothing = %s'}
+    steps = ['session pair over %d bounded connection(s) (a Write returns when the peer\'s receive loop has taken the message); streams 1,2,3 open; %s; mid-send operation: %s; arriving frame: %s%s' % (
+        meta['nconn'], meta['order'], meta['mid'], meta['arriving'], '; mirrored on both sides' if meta['two_sided'] else '')]
+    for t, o in zip(line.split()[4:], d['steps'] + [''] * 99):
+        p = t.split(':')
+        if p[0] in names:
+            steps.append(names[p[0]] % (p[1], p[2]))
+        else:
+            what = {'W': 'Stream.Write(%s bytes) on stream %s' % (p[3] if len(p) > 3 else '', p[2] if len(p) > 2 else ''), 'F': 'Stream.ReadFrom(one read of %s bytes) on stream %s' % (p[3] if len(p) > 3 else '', p[2] if len(p) > 2 else ''),
+                    'X': 'Stream.Close on stream %s' % (p[2] if len(p) > 2 else ''), 'Z': 'Session.Close', 'R': 'Stream.Read on stream %s' % (p[2] if len(p) > 2 else '')}[p[0]]
+            steps.append('side %s: %s -> %s' % (p[1], what, {'d': 'returned ', 'b': 'BLOCKED at '}.get(o[:1], '') + o[2:]))
+    if '|' in io:
+        steps.append('final quiescence: ' + io.split('|', 1)[1].strip())
+    return steps
+
+
+def bd_run(ctx, lines, tag):
+    inp = '%s/%s.in' % (ctx.work, tag); out = '%s/%s.go.out' % (ctx.work, tag)
+    open(inp, 'w').write('\n'.join(lines) + '\n')
+    if os.path.exists(out):
+        os.remove(out)
+    rc, log, dt = vlib.go_test(ctx, 'multiplex', 'TestVerifC12Bounded', files=['c12_bounded_test.go', 'c02_win_test.go'], env=dict(VERIF_IN=inp, VERIF_OUT=out), timeout=300)
+    return rc, log, vlib.read_lines_by_id(out), dt
+
+
+def bounded(ctx, verdict, intensive=False):
+    broken = []
+    cases = bd_gen(ctx, intensive)
+    rc, log, impl, dt = bd_run(ctx, [c[1] for c in cases], 'bounded')
+    if rc != 0 or not impl:
+        broken.append(('Go driver TestVerifC12Bounded (session pair over bounded connections) failed to build or run', log[-3000:]))
+        if not impl:
+            return broken
+    fails = []
+    midsend = 0
+    for cid, line, meta in cases:
+        io = impl.get(cid)
+        if io is None:
+            continue
+        midsend += io.count('b:cond@(*switchboard).send')
+        msg = bd_oracle(line, meta, io)
+        if msg:
+            fails.append((0 if meta['nconn'] == 1 else 1, len(line), line, meta, io, msg))
+    for _, _, line, meta, io, msg in sorted(fails, key=lambda f: f[:2])[:1]:
+        verdict.oracle_failure('bounded:' + re.sub(r'\d+', 'N', msg)[:50], '%s oracle (session pair over bounded connections): ' % ctx.pid + msg,
+                               dict(kind='window', driver='bd', case=line, meta=meta, implementation=io, schedule=bd_describe(line, meta, io), failing_cases=len(fails),
+                                    how='python3 tools/check.py %s --replay <this file>  (VERIF_IN=<file with the case line> go test -overlay .. -run TestVerifC12Bounded ./internal/multiplex/)' % ctx.pid))
+    verdict.cov['bounded_connection_cases'] = dict(cases=len(cases), ran=len(impl), senders_parked_inside_conn_write=midsend, oracle_failures=len(fails), go_seconds=round(dt, 1),
+                                                   rule='{Write, ReadFrom, Close} mid-send (holding the stream\'s write mutex inside a blocking conn.Write) x {closing frame, data frame for the same / another stream, session-closing frame} arriving at that side\'s receive loop, one-sided and mirrored on both sides, 1 and 2 connections, frames held first or sender first, both release orders; afterwards every call has returned, every receive loop is back in Read, sessions closed only if one was closed, ping-pong on a third stream; quiescence and blocked calls read off runtime.Stack')
+    verdict.cov['evaluations'] = verdict.cov.get('evaluations', 0) + len(cases)
+    return broken
+
+
+def bd_replay(ctx, r):
+    rc, log, impl, dt = bd_run(ctx, [r['case']], 'replay')
+    io = impl.get(r['case'].split()[0]) or ''
+    for s in bd_describe(r['case'], r['meta'], io):
+        print('  ', s)
+    msg = bd_oracle(r['case'], r['meta'], io)
+    print('oracle:', msg)
+    return 1 if msg else 0
+
+
+REPLAY['bd'] = bd_replay
+_c01_windows_before_bounded = c01_windows
+
+
+def c01_windows(ctx, verdict, intensive=False):
+    return _c01_windows_before_bounded(ctx, verdict, intensive) + bounded(ctx, verdict, intensive)
+
+
+WINDOWS['C01'] = c01_windows
+_c12_close_race_only = c12_close_race
+
+
+def c12_close_race(ctx, verdict):
+    return _c12_close_race_only(ctx, verdict) + bounded(ctx, verdict)
